@@ -53,3 +53,8 @@ template struct splinetable<void>;
 // ENV-1: a routine that switches on flush-to-zero for the rest of the thread
 #include <xmmintrin.h>
 void st_env1_ftz() { _mm_setcsr(_mm_getcsr() | 0x8040); }
+
+// PR-1: a double-precision instantiation that accumulates in float / its clean twin
+template<typename Float> Float st_pr1_narrow(const Float* a, int n) { float r = 0; for (int i = 0; i < n; i++) r += a[i]; return r; }
+template<typename Float> Float st_pr1_clean(const float* c, const Float* a, int n) { Float r = 0; for (int i = 0; i < n; i++) r += c[i] * a[i]; return r; }
+double st_pr1_use(const double* a, const float* c, int n) { return st_pr1_narrow<double>(a, n) + st_pr1_clean<double>(c, a, n); }
